@@ -11,7 +11,7 @@
    behavioural tie of harness/c03.py (histories x schedules x thread counts x processes, SHA-256 of to_json() and of a
    fixed prediction) decides. *)
 From Coq Require Import ZArith List Bool String Permutation.
-From V Require Import Model.Repro Model.ReproFlow Proofs.ReproProofs Generated.ReproGen.
+From V Require Import Model.Repro Model.ReproFlow Proofs.ReproProofs Proofs.ReproFlowProofs Generated.ReproGen.
 Import ListNotations.
 Open Scope Z_scope.
 
@@ -267,6 +267,68 @@ Theorem C03_default_optimisers_deterministic :
   forallb (fun p => algorithm_ok (snd p)) default_algorithms = true /\ (0 < List.length default_algorithms)%nat.
 Proof. vm_compute. split; [reflexivity|repeat constructor]. Qed.
 Print Assumptions C03_default_optimisers_deterministic.
+
+(* ------------------------------------------------------------------------------------------------------------
+   What the seed-flow check MEANS, for all tables (Proofs/ReproFlowProofs.v).  [flows assigns bindings given s l]: some
+   data-flow path from the expression s -- through any chain of `_seed` attribute assignments and parameter bindings, of any
+   length -- ends at a source of kind l (LField: the settings field `seed`; LDraw: the np.random draw; LConst: a literal;
+   LBad: None / not passed / unreadable / never assigned / never called). *)
+Open Scope string_scope.
+
+(* the fuel-bounded search is COMPLETE: if it reports no bad leaf, every path of the semantics ends at a leaf it lists *)
+Theorem C03_seed_flow_search_is_complete : forall assigns bindings given fuel s,
+  ~ In LBad (resolve assigns bindings fuel given s) ->
+  forall l, flows assigns bindings given s l -> In l (resolve assigns bindings fuel given s).
+Proof. exact resolve_complete. Qed.
+Print Assumptions C03_seed_flow_search_is_complete.
+
+(* ... and SOUND: every good leaf it lists is the end of a real path *)
+Theorem C03_seed_flow_search_is_sound : forall assigns bindings given fuel s l,
+  In l (resolve assigns bindings fuel given s) -> l <> LBad -> flows assigns bindings given s l.
+Proof. exact resolve_sound. Qed.
+Print Assumptions C03_seed_flow_search_is_sound.
+
+(* so a site that passes the check receives, along EVERY path, the settings seed when one is given and the one documented
+   draw when none is *)
+Theorem C03_site_seeded_means_every_path : forall assigns bindings s, site_seeded assigns bindings s = true ->
+  (forall l, flows assigns bindings true (s_src s) l -> l = LField) /\
+  (forall l, flows assigns bindings false (s_src s) l -> l = LDraw).
+Proof. exact site_seeded_means. Qed.
+Print Assumptions C03_site_seeded_means_every_path.
+
+(* in the source as it is today: every live consumer of randomness that is not handed a literal is reached, along every
+   data-flow path of the regenerated tables, by the settings seed and by nothing else *)
+Lemma site_ok_cases : forall s, site_ok attr_assigns bindings s = true -> s_dead s = false -> exempt s = false ->
+  site_constant attr_assigns bindings s = false -> site_seeded attr_assigns bindings s = true.
+Proof.
+  intros s H Hd He Hc. unfold site_ok in H. rewrite Hd, He, Hc in H.
+  destruct (site_seeded attr_assigns bindings s); [reflexivity|discriminate H].
+Qed.
+Theorem C03_every_path_into_a_consumer_starts_at_the_seed : forall s, In s consumer_sites ->
+  s_dead s = false -> exempt s = false -> site_constant attr_assigns bindings s = false ->
+  (forall l, flows attr_assigns bindings true (s_src s) l -> l = LField) /\
+  (forall l, flows attr_assigns bindings false (s_src s) l -> l = LDraw).
+Proof.
+  intros s Hin Hd He Hc. apply site_seeded_means. apply site_ok_cases; try assumption.
+  pose proof C03_seed_reaches_every_consumer_in_source as H. rewrite forallb_forall in H. apply H. exact Hin.
+Qed.
+Print Assumptions C03_every_path_into_a_consumer_starts_at_the_seed.
+
+(* non-vacuity: such sites exist (ElasticNet, BisectingKMeans, check_random_state), and a real path: the k-means
+   random_state  seed + i  <- _cluster_time_series(seed) <- _cluster_temporal_features(seed) <- temporal_cluster._seed
+   <- settings._seed <- settings.seed *)
+Example C03_nonvacuous_flow :
+  (3 <= List.length (filter (fun s => negb (s_dead s) && negb (exempt s) && negb (site_constant attr_assigns bindings s))
+                            consumer_sites))%nat /\
+  flows attr_assigns bindings true (SPlusIdx (SParam "_cluster_time_series" "seed")) LField /\
+  flows attr_assigns bindings false (SPlusIdx (SParam "_cluster_time_series" "seed")) LDraw /\
+  flows attr_assigns bindings true SNone LBad.
+Proof.
+  split; [vm_compute; repeat constructor|].
+  split; [apply (resolve_sound _ _ _ 12); [vm_compute; left; reflexivity|discriminate]|].
+  split; [apply (resolve_sound _ _ _ 12); [vm_compute; left; reflexivity|discriminate]|constructor].
+Qed.
+Open Scope Z_scope.
 
 (* ------------------------------------------------------------------------------------------------------------
    Non-vacuity. *)
